@@ -9,11 +9,11 @@ import (
 	"time"
 
 	ds "github.com/ipfs/go-datastore"
+	ipns "github.com/ipfs/go-ipns"
 	ipfscluster "github.com/ipfs/ipfs-cluster"
 	"github.com/ipfs/ipfs-cluster/consensus/crdt"
 	"github.com/ipfs/ipfs-cluster/consensus/raft"
 	"github.com/ipfs/ipfs-cluster/datastore/inmem"
-	ipns "github.com/ipfs/go-ipns"
 	libp2p "github.com/libp2p/go-libp2p"
 	"github.com/libp2p/go-libp2p-core/control"
 	crypto "github.com/libp2p/go-libp2p-core/crypto"
@@ -72,9 +72,9 @@ func (g *Gater) ok(p peer.ID) bool {
 	return !g.blocked[p]
 }
 
-func (g *Gater) InterceptPeerDial(p peer.ID) bool                   { return g.ok(p) }
-func (g *Gater) InterceptAddrDial(p peer.ID, _ ma.Multiaddr) bool   { return g.ok(p) }
-func (g *Gater) InterceptAccept(network.ConnMultiaddrs) bool        { return true }
+func (g *Gater) InterceptPeerDial(p peer.ID) bool                 { return g.ok(p) }
+func (g *Gater) InterceptAddrDial(p peer.ID, _ ma.Multiaddr) bool { return g.ok(p) }
+func (g *Gater) InterceptAccept(network.ConnMultiaddrs) bool      { return true }
 func (g *Gater) InterceptSecured(_ network.Direction, p peer.ID, _ network.ConnMultiaddrs) bool {
 	return g.ok(p)
 }
@@ -202,15 +202,16 @@ func (p *NetPeer) PrepareHost(ctx context.Context) error {
 
 // NetOpts configures StartPeer.
 type NetOpts struct {
-	Consensus string // raft | crdt
-	Peers     []peer.ID
-	RaftTune  RaftTune
-	Staging   bool
-	CrdtTune  func(cfg *crdt.Config)
-	Tune      func(cfg *ipfscluster.Config)
-	Tracker   ipfscluster.PinTracker
-	IPFS      ipfscluster.IPFSConnector
-	RealMon   bool
+	Consensus   string // raft | crdt
+	Peers       []peer.ID
+	RaftTune    RaftTune
+	Staging     bool
+	CrdtTune    func(cfg *crdt.Config)
+	Tune        func(cfg *ipfscluster.Config)
+	Tracker     ipfscluster.PinTracker
+	IPFS        ipfscluster.IPFSConnector
+	RealMon     bool
+	NoWaitReady bool
 }
 
 // StartPeer boots a real Cluster peer with real consensus on a real host.
@@ -244,13 +245,14 @@ func StartPeer(ctx context.Context, p *NetPeer, o NetOpts) error {
 	}
 	node, err := NewNode(ctx, NodeOpts{
 		Host: h, PubSub: ps, DHT: idht,
-		Secret:  NetSecret,
-		BaseDir: p.Dir,
-		Tune:    o.Tune,
-		Monitor: mon,
-		RealMon: o.RealMon,
-		Tracker: tracker,
-		IPFS:    ipfs,
+		Secret:      NetSecret,
+		BaseDir:     p.Dir,
+		NoWaitReady: o.NoWaitReady,
+		Tune:        o.Tune,
+		Monitor:     mon,
+		RealMon:     o.RealMon,
+		Tracker:     tracker,
+		IPFS:        ipfs,
 		Consensus: func(h host.Host, ps *pubsub.PubSub, d *dual.DHT, store ds.Datastore, _ *ipfscluster.Config) (ipfscluster.Consensus, error) {
 			cs := store
 			if p.WrapStore != nil {
